@@ -362,7 +362,7 @@ pub fn str_lit(r: &mut Rng, allow_wide: bool) -> E {
     for _ in 0..n {
         let (t, c) = c_char(r, true, pre == Pre::None);
         // never produce an embedded NUL: the Rust side would still be right, but `\0` followed by a digit re-lexes
-        if c == 0 { text.push('z'); bytes.push(b'z'); continue; }
+        if c == 0 { if r.chance(1, 3) { text.push_str("\\000"); bytes.push(0); } else { text.push('z'); bytes.push(b'z'); } continue; }
         // "??x" trigraph-looking sequences are harmless in gnu11; '?' escapes are fine
         text.push_str(&t);
         bytes.push(c as u8);
